@@ -210,18 +210,6 @@ func diffItems(exp, got []refsearch.Item, cmpAttrs bool) string {
 	return ""
 }
 
-// fpAssocAbsent is the (so far only) C04 finding class: NOT_PRESENT on
-// __NEOFS__ASSOCIATE as the first filter makes MergeSearchResults decode the
-// empty (missing) attribute values as object IDs (regression of eba4079).
-const fpAssocAbsent = "C04:associate-not-present-merge-error"
-
-// assocAbsent recognises the class narrowly: query shape AND the exact symptom.
-func assocAbsent(q refsearch.Query, attrs []string, holders int, err error) bool {
-	return holders >= 2 && len(attrs) > 0 && len(q.Filters) > 0 && q.Filters[0].Key == refsearch.KAssociate &&
-		q.Filters[0].Op == refsearch.OpAbsent && err != nil &&
-		strings.Contains(err.Error(), `invalid "__NEOFS__ASSOCIATE" attribute value`)
-}
-
 // openC03 reports whether q has the shape of an OPEN single-shard (C03) finding.
 func openC03(view []refsearch.Obj, q refsearch.Query) bool {
 	for _, cls := range searchgen.C03Classes(view, q) {
@@ -404,11 +392,6 @@ func (m *mergedRun) run(t *rapid.T, rec *ev.Recorder) {
 			}
 			got, pages, perr := paginate(f, q, attrs, uint16(p), len(ref)+3)
 			if perr != nil {
-				if !perr.prep && assocAbsent(q, attrs, m.k, perr.err) && rec.Known(fpAssocAbsent) {
-					rec.Label("known-" + fpAssocAbsent)
-					rec.Excluded(1)
-					continue
-				}
 				what := "search failed"
 				if perr.prep {
 					what = "cursor returned by the node was NOT ACCEPTED by PreprocessSearchQuery"
@@ -700,12 +683,6 @@ func TestC04MergePure(t *testing.T) {
 				}
 				res, more, err := objectcore.MergeSearchResults(uint16(p), firstAttr, cmpInt, sets, mores)
 				if err != nil {
-					if assocAbsent(q, q.Attrs, k, err) && rec.Known(fpAssocAbsent) {
-						rec.Label("known-" + fpAssocAbsent)
-						rec.Excluded(1)
-						ok = false
-						break
-					}
 					fail("MergeSearchResults: %v", err)
 					ok = false
 					break
